@@ -100,7 +100,9 @@ ENGINES = {
     "wire": dict(src="wire", pkg="zz_verif/wire"),
     "relay": dict(src="relay", pkg="obfs4proxy", weave=[
         # the only rewrite: serverHandler's ORPort dial (a real socket) goes to the harness
-        dict(path="obfs4proxy/obfs4proxy.go", calls={"pt.DialOr": "verifDialOr"}),
+        # ... and its go statements become named tasks when a scenario switches that on
+        # (the accept loops spawn the handlers; everywhere else they stay plain go)
+        dict(path="obfs4proxy/obfs4proxy.go", calls={"pt.DialOr": "verifDialOr"}, go=True),
     ]),
     "woven": dict(src="woven", include=["wire"], pkg="zz_verif/woven", weave=[
         dict(path="common/replayfilter/replay_filter.go", yields=True, go=True, sync=True),
